@@ -492,5 +492,8 @@ func WriteStriped[S, D SignalTypes](src [][]S, dst *Buffer[D]) (written int) {
 // alignCapacity ensures that Buffer capacity is aligned with number of
 // channels.
 func alignCapacity(s interface{}, channels, c int) {
+	if channels == 0 {
+		return
+	}
 	reflect.ValueOf(s).Elem().SetCap(c - c%channels)
 }
